@@ -167,8 +167,14 @@ def run(ctx, replay=None):
     for name in (['g', 'q', 'm'] if quick else ['g', 'q', 'm', 'l']):
         cfgfile, tcfg = CFGS[name]
         dump = name == 'g'
-        r = engine.tlc_check(ctx, SPEC, MODULE, cfgfile, name='TxExec/' + name, dump=dump, workers=W,
-                             timeout=300 if quick else 1500)
+        r = engine.tlc_check(ctx, SPEC, MODULE, cfgfile, name='TxExec/' + name, dump=dump, coverage=dump,
+                             workers=1 if dump else W, timeout=300 if quick else 1500)
+        if dump:
+            # vacuity: every action of the specification fires
+            vac = [a for a, (d, t) in r.coverage.items() if t == 0]
+            ctx.cov['action_coverage'] = {a: list(v) for a, v in r.coverage.items()}
+            if vac or not r.coverage:
+                ctx.inconclusive.append('vacuous actions in TxExec: %s' % vac)
         if r.violation:
             ctx.inconclusive.append('spec property %s violated in config %s (specification defect, not a verdict about the code)'
                                     % (r.violation, name))
@@ -184,13 +190,6 @@ def run(ctx, replay=None):
                 t['id'] = 'graph-%s-%d' % (name, k)
                 traces.append(t)
         tlc.cleanup(r)
-
-    # 2. vacuity: every action of the specification fires (coverage run of the small config)
-    r = tlc.run(SPEC, MODULE, CFGS['q'][0], workers=1, timeout=300, coverage=True)
-    vac = [a for a, (d, t) in r.coverage.items() if t == 0 and a not in ('Bound',)]
-    ctx.cov['action_coverage'] = {a: list(v) for a, v in r.coverage.items()}
-    if vac or not r.coverage:
-        ctx.inconclusive.append('vacuous actions in TxExec: %s' % vac)
 
     # 3. the code before each repair is a configuration of the same spec: TLC must find the violation, and the
     #    counterexample is replayed on the real code (model-independent oracles only)
